@@ -195,8 +195,8 @@ class C06(Property):
             elif r < 0.84:
                 row = db.get(p)
                 ds = [1, S, S + S // 2, 10 * S, S - 1, S + 1, 3 * S]
-                if allow:
-                    ds += [0, -S, -5]
+                if allow and rng.random() < 0.3:
+                    ds = [0, -S, -5]
                 if row:
                     ops.append(["setex", p, row[0], row[1], rng.choice(ds)])
                 elif sloppy:
@@ -469,7 +469,24 @@ class C06(Property):
                 fs.append("%s:%s:q%d" % (o[0], ob["r"], ob["qi"] + ob["qp"]))
         return fs
 
+    PARTS = ["coherence (read differs from the reference database)",
+             "served-from-cache (live entry not answered with 0 queries / store touched)",
+             "database errors (not returned, cached, or more than one query)",
+             "fail-fast (cache outage reached the database or was not reported)",
+             "TTL (entry written without TTL, outside its band, or an unexpected store change)",
+             "invalidation (key still cached after a successful Exec/Del)"]
+
     def describe_failure(self, case, obs):
+        try:
+            out = vlib.coq_eval_term(self.id + "_d", self.check_module, "diagnose (%s)" % self.coq_case(case, obs))
+            m = re.search(r"Some\s*\(\s*(\d+)\s*,\s*\[([^\]]*)\]", out)
+            if m:
+                i = int(m.group(1))
+                flags = [x.strip() == "true" for x in m.group(2).split(";")]
+                bad = [self.PARTS[j] for j, f in enumerate(flags) if not f]
+                return "operation #%d %s: %s" % (i, case["ops"][i], "; ".join(bad))
+        except Exception:
+            pass
         return ("a read returned something other than the database's row, a cached entry was not served from the cache, "
                 "a database error was cached or swallowed, a cache outage reached the database, or an entry was written "
                 "with a TTL outside its band / without TTL")
